@@ -171,7 +171,7 @@ class WeightedProbabilityBasedSquaredError(ProbabilityBasedLossFunction):
                 if row == 2 and col == 2:
                     weight_matrix[0, 0] = extracted_mat_inv[0, 0]
                 else:
-                    weight_matrix[:row, :col] = extracted_mat_inv
+                    weight_matrix[: row - 1, : col - 1] = extracted_mat_inv
                 weight_matrices.append(weight_matrix)
 
             self.set_weight_matrices(weight_matrices)
